@@ -34,3 +34,21 @@ theorem C12_unlocked_shared_mutation_rejected (safe : Nat → Bool) (comp : Nat)
 theorem C12_locked_shared_mutation_accepted (safe : Nat → Bool) (comp : Nat) :
     raceFree safe [(0, comp, true, true), (1, comp, true, true)] = true := by
   simp [raceFree, conflict]
+
+
+/-- **What the foreign-goroutine check establishes**: a field of the client that `Close` / `IsClosed` touch and the
+call (`Do` / `Ping` with everything they run) touches as well is either only read by both, or touched under a lock
+by both -/
+theorem C12_foreign_free_meaning (callers foreign : List FieldOp) (h : foreignFree callers foreign = true)
+    (a b : FieldOp) (ha : a ∈ callers) (hb : b ∈ foreign) (hf : a.2.1 = b.2.1) :
+    (a.2.2.1 = false ∧ b.2.2.1 = false) ∨ (a.2.2.2 = true ∧ b.2.2.2 = true) := by
+  unfold foreignFree at h
+  have h1 := List.all_eq_true.mp h a ha
+  have h2 := List.all_eq_true.mp h1 b hb
+  simp only [fieldConflict, hf, beq_self_eq_true, Bool.true_and] at h2
+  cases hga : a.2.2.2 <;> cases hgb : b.2.2.2 <;> cases hwa : a.2.2.1 <;> cases hwb : b.2.2.1 <;> simp_all
+
+/-- the check is not vacuous: the call re-assigns its logger field without a lock (it may: the call is single-caller),
+so a `Close` that read that field would be rejected -/
+theorem C12_foreign_read_of_reassigned_field_rejected :
+    foreignFree [(0, "lg", true, false)] [(0, "lg", false, false)] = false := by decide
